@@ -35,7 +35,7 @@ STUBS = common.STUBS_ALL
 ENVELOPE_RULES = ['memory-past-above-delayed (F08) for pastified online monitors']
 INTERLEAVING_MEASURE = 'distinct (monitor kind, mode, number of updates or batches) tuples'
 PROBES = ['pastified', 'modular_specification', 'predicate_mixes_input_and_output', 'insensitive_predicate_present', 'sensitive_predicate_present', 'standard_with_declarations',
-          'vacuity', 'dense_offline', 'dense_online', 'discrete_offline', 'discrete_online', 'predicate_at_equality']
+          'vacuity', 'dense_offline', 'dense_online', 'discrete_offline', 'discrete_online', 'predicate_at_equality', 'message_typed_variable']
 
 SEMS = ['standard', 'output-robustness', 'input-robustness', 'output-vacuity', 'input-vacuity']
 INF = float('inf')
@@ -100,7 +100,10 @@ def gen(rng, tier):
     elif rng.random() < 0.35 and sg.size(ast) >= 4:
         defs, top = sg.modularize(rng, ast, max_subs=2, prefer_stateful=False)
         modular = {'defs': defs, 'top': top, 'via': rng.choice(['add_sub_spec', 'text'])}
-    sc = {'kind': kind, 'mode': mode, 'vars': vars_, 'ast': ast, 'io': io, 'sem': sem, 'pastify': bool(pastify), 'modular': modular}
+    # message-typed variables: declared with an imported class type and read through a field (a.value)
+    structs = [v for v in vars_ if rng.random() < 0.5] if rng.random() < 0.15 else []
+    sc = {'kind': kind, 'mode': mode, 'vars': vars_, 'ast': ast, 'io': io, 'sem': sem, 'pastify': bool(pastify), 'modular': modular,
+          'structs': structs}
     if dense:
         sc['signals'] = dict((v, world.gen_dense_signal(rng, rng.randint(1, 6), start_q=0, max_gap_q=4)[0]) for v in vars_)
         sc['nbatches'] = rng.randint(1, 3)
@@ -157,14 +160,16 @@ def eqn(a, b):
 
 def desc_of(sc, with_io=True, sem=None):
     dense = sc['kind'] == 'ct'
-    text = common.dense_text(sc['ast']) if dense else 'out = ' + sg.to_text(sc['ast']) + ';'
-    d = {'cls': sc['kind'], 'semantics': sem or sc['sem'], 'vars': common.var_decls(sc['vars']), 'spec': text,
+    st = set(sc.get('structs') or [])
+    sast = common.structify(sc['ast'], st)
+    text = common.dense_text(sast) if dense else 'out = ' + sg.to_text(sast) + ';'
+    d = {'cls': sc['kind'], 'semantics': sem or sc['sem'], 'vars': [[v, 'Msg' if v in st else 'float'] for v in sc['vars']], 'spec': text,
          'pastify': bool(sc.get('pastify')) and sc['mode'] == 'on'}
     mod = sc.get('modular')
     if mod:
         bp = common.dense_bounds if dense else None
-        subs = ['%s = %s;' % (n, sg.to_text(a, None, bp)) for n, a in mod['defs']]
-        top = 'out = ' + sg.to_text(mod['top'], None, bp) + ';'
+        subs = ['%s = %s;' % (n, sg.to_text(common.structify(a, st), None, bp)) for n, a in mod['defs']]
+        top = 'out = ' + sg.to_text(common.structify(mod['top'], st), None, bp) + ';'
         if mod.get('via') == 'text':
             d['spec'] = '\n'.join(subs) + '\n' + top
         else:
@@ -240,6 +245,8 @@ def run(sc):
         r.probes['pastified'] += 1
     if sc.get('modular'):
         r.probes['modular_specification'] += 1
+    if sc.get('structs'):
+        r.probes['message_typed_variable'] += 1
     if dense:
         f = D.from_samples(out) if isinstance(out, list) else None
         s0 = max(sc['signals'][v][0][0] for v in used)
@@ -319,6 +326,10 @@ def run(sc):
 
 def shrinks(sc):
     dense = sc['kind'] == 'ct'
+    if sc.get('structs'):
+        c = copy.deepcopy(sc)
+        c['structs'] = []
+        yield c
     if sc.get('modular'):
         c = copy.deepcopy(sc)
         c['modular'] = None
